@@ -1,8 +1,8 @@
 CONSTANTS
   Servers = {1, 2}
   MaxReq = 2
-  MinTicks = 3
-  MaxTicks = 3
+  MinTicks = 2
+  MaxTicks = 2
   Payloads = {1, 2}
   Variant = "intended"
 SPECIFICATION Spec
